@@ -12,8 +12,11 @@
 #include <kernel/geometry/mesh_file_reader.hpp>
 #include <kernel/geometry/boundary_factory.hpp>
 #include <kernel/geometry/patch_meshpart_factory.hpp>
+#include <kernel/geometry/intern/face_index_mapping.hpp>
+#include <kernel/util/dist.hpp>
 #include <c10_meshlib.hpp>
 
+#include <csignal>
 #include <dirent.h>
 #include <fstream>
 
@@ -27,7 +30,8 @@ namespace
     int depth = 2;
     int qbits = 0;          // lattice of the level-0 coordinates
     int part_variant = -1;  // <0: no generated parts
-    int perm_strategy = 0;  // PermutationStrategy as int, 0 = none
+    int perm_strategy = 0;  // PermutationStrategy as int, 0 = none; 1 (other) = custom permutation through set_permutation
+    int custom_perm = 0;    // for perm_strategy 1: 0 all dimensions reversed, 1 cells only, 2 vertices only
     bool adapt_check = false;
     bool coverage = false;
     std::string shape;
@@ -92,6 +96,19 @@ namespace
       const int fd = dim - 1;
       std::vector<Index> bf;
       for(Index f = 0; f < M.n[fd]; ++f) if(ti.facet_adj[size_t(f)] == 1) bf.push_back(f);
+      // halo and patch mesh parts of the node (RootMeshNode::add_halo / add_patch): refined and permuted alongside
+      {
+        vm::PartSpec h1; for(size_t i = 0; i < bf.size(); ++i) if(((v + int(i)) % 3) == 0) h1.trg[fd].push_back(bf[i]);
+        if(h1.trg[fd].empty()) h1.trg[fd].push_back(bf[0]);
+        vm::close_part(M, h1); scramble(h1, v + 3);
+        node.add_halo(3, vm::build_part<MeshType>(h1, M, o.qbits + 3 * o.depth));
+        vm::PartSpec h2; h2.trg[0].push_back(Index(v) % M.n[0]);
+        node.add_halo(7, vm::build_part<MeshType>(h2, M, o.qbits + 3 * o.depth));
+        vm::PartSpec pp; for(Index i = Index(v % 2); i < M.n[dim]; i += 2) pp.trg[dim].push_back(i);
+        if(pp.trg[dim].empty()) pp.trg[dim].push_back(0);
+        vm::close_part(M, pp);
+        node.add_patch(2, vm::build_part<MeshType>(pp, M, o.qbits + 3 * o.depth));
+      }
       // boundary part from the BoundaryFactory
       {
         BoundaryFactory<MeshType> bfac(*node.get_mesh());
@@ -181,6 +198,140 @@ namespace
       }
     }
 
+    /// rename / remove operations of the node: the remaining parts and halos must be exactly the old ones under their new keys
+    static bool node_api_history(verif::Ctx& c, NodeType& node, std::map<std::string, vm::PPart>& PC, int v)
+    {
+      std::map<std::string, vm::PPart> want = PC;
+      auto mv = [&](const std::string& a, const std::string& b) {
+        std::map<std::string, vm::PPart> w2;
+        for(auto& x : want) { std::string k = x.first; if(k == a) k = b; else if(k.compare(0, a.size() + 1, a + "/") == 0) k = b + k.substr(a.size()); w2[k] = x.second; }
+        want = w2; };
+      bool ok = true;
+      switch(v % 5)
+      {
+      case 1:
+        node.rename_mesh_parts({{"sub", "zz_sub"}, {"raw", "aa_raw"}, {"does-not-exist", "x"}});
+        mv("sub", "zz_sub"); mv("raw", "aa_raw");
+        ok = c.check(node.find_mesh_part("sub") == nullptr && node.find_mesh_part("zz_sub") != nullptr, "node.rename_mesh_parts", "renamed part not found under its new name") && ok;
+        c.count("node_api.rename_mesh_parts");
+        break;
+      case 2:
+        ok = c.check(node.remove_mesh_part("raw"), "node.remove_mesh_part", "remove_mesh_part of an existing part returned false") && ok;
+        ok = c.check(!node.remove_mesh_part("raw") && !node.remove_mesh_part("nope"), "node.remove_mesh_part", "remove_mesh_part of a missing part returned true") && ok;
+        want.erase("raw");
+        c.count("node_api.remove_mesh_part");
+        break;
+      case 3:
+        if((v / 5) % 2 == 0)
+        {
+          node.rename_halos({{3, 11}, {7, 5}, {99, 1}});
+          mv("halo:3", "halo:11"); mv("halo:7", "halo:5");
+          ok = c.check(node.get_halo(3) == nullptr && node.get_halo(11) != nullptr && node.get_halo(5) != nullptr && node.get_halo(1) == nullptr, "node.rename_halos", "halos not found under their new ranks") && ok;
+        }
+        else
+        {
+          node.rename_halos({{3, 11}, {99, 1}}); // halo 7 keeps its rank
+          mv("halo:3", "halo:11");
+          ok = c.check(node.get_halo(3) == nullptr && node.get_halo(11) != nullptr && node.get_halo(7) != nullptr, "node.rename_halos", "halos not found under their (new) ranks") && ok;
+        }
+        c.count("node_api.rename_halos");
+        break;
+      case 4:
+        node.rename_mesh_parts(std::map<String, String>());
+        node.rename_halos(std::map<int, int>());
+        break;
+      default: break;
+      }
+      std::map<std::string, vm::PPart> now;
+      collect_parts(node, now);
+      std::string d = vm::diff_parts(want, now);
+      ok = c.check(d.empty(), "node.api-history", [&]{ return "after rename/remove (variant " + vm::str(v % 5) + ") the node's parts are not the old ones under the new names: " + d; }) && ok;
+      PC = now;
+      return ok;
+    }
+
+    /// MeshPart / ConformalMesh members that the refinement path itself does not touch
+    static bool lvl0_part_api(verif::Ctx& c, NodeType& node, const vm::PMesh& M, const Opts& o)
+    {
+      bool ok = true;
+      const int v = o.part_variant;
+      // MeshPart::clone(other) into an existing part of different size and kind; Factory::make()
+      {
+        const PartType* src = node.find_mesh_part((v & 1) ? "topo" : "bnd");
+        if(src == nullptr) src = node.find_mesh_part("bnd");
+        if(src != nullptr)
+        {
+          Index ne[4] = {1, 0, 0, 0};
+          PartType dst(ne, (v & 2) != 0);
+          dst.clone(*src);
+          vm::PPart A, B; vm::extract_part(A, *src); vm::extract_part(B, dst);
+          std::string d = vm::diff_part(A, B);
+          ok = c.check(d.empty(), "part.clone-into", [&]{ return "MeshPart::clone(other) into an existing part differs from the source: " + d; }) && ok;
+          PartType dst2 = src->clone();
+          vm::PPart B2; vm::extract_part(B2, dst2);
+          d = vm::diff_part(A, B2);
+          ok = c.check(d.empty(), "part.clone", [&]{ return "MeshPart::clone() differs from the source: " + d; }) && ok;
+        }
+        BoundaryFactory<MeshType> bfac(*node.get_mesh());
+        PartType b1 = bfac.make();
+        std::unique_ptr<PartType> b2 = bfac.make_unique();
+        vm::PPart A, B; vm::extract_part(A, b1); vm::extract_part(B, *b2);
+        ok = c.check(vm::diff_part(A, B).empty(), "factory.make", "Factory::make() and make_unique() produce different parts") && ok;
+      }
+      // deduct_target_sets_from_bottom: an entity belongs to the part iff all its facets do (starting from a vertex set);
+      // deduct_target_sets_from_top: all sub-entities of the listed cells
+      {
+        std::set<Index> in[4];
+        for(Index i = 0; i < M.n[0]; ++i) if(((i * 3 + Index(v)) % 4) != 0) in[0].insert(i);
+        Index ne[4] = {Index(in[0].size()), 0, 0, 0};
+        PartType pb(ne, false);
+        { Index k = 0; for(Index x : in[0]) pb.template get_target_set<0>()[k++] = x; }
+        pb.template deduct_target_sets_from_bottom<0>(node.get_mesh()->get_index_set_holder());
+        for(int d = 1; d <= dim; ++d) for(Index e = 0; e < M.n[d]; ++e)
+        {
+          bool all = true;
+          for(int j = 0; j < M.cnt(d, d - 1); ++j) if(!in[d - 1].count(d == 1 ? M.tup(1, 0, e)[j] : M.tup(d, d - 1, e)[j])) all = false;
+          if(all) in[d].insert(e);
+        }
+        vm::PPart PB; vm::extract_part(PB, pb);
+        for(int d = 0; d <= dim; ++d)
+        {
+          std::set<Index> have(PB.trg[d].begin(), PB.trg[d].end());
+          ok = c.check(have == in[d] && have.size() == PB.trg[d].size() && PB.n[d] == Index(have.size()), "part.deduct_from_bottom.dim" + vm::str(d),
+            [&]{ return "deduct_target_sets_from_bottom lists " + vm::str(PB.trg[d].size()) + " entities of dim " + vm::str(d) + " (reported " + vm::str(PB.n[d]) + "), entities whose facets all belong to the part: " + vm::str(in[d].size()); }) && ok;
+        }
+        vm::PartSpec ps; for(Index i = Index(v % 3); i < M.n[dim]; i += 3) ps.trg[dim].push_back(i);
+        if(ps.trg[dim].empty()) ps.trg[dim].push_back(0);
+        Index nt[4] = {0, 0, 0, 0}; nt[dim] = Index(ps.trg[dim].size());
+        PartType pt(nt, false);
+        for(size_t i = 0; i < ps.trg[dim].size(); ++i) pt.template get_target_set<dim>()[Index(i)] = ps.trg[dim][i];
+        pt.template deduct_target_sets_from_top<dim>(node.get_mesh()->get_index_set_holder());
+        vm::close_part(M, ps);
+        vm::PPart PT; vm::extract_part(PT, pt);
+        for(int d = 0; d < dim; ++d)
+        {
+          std::set<Index> have(PT.trg[d].begin(), PT.trg[d].end()), want(ps.trg[d].begin(), ps.trg[d].end());
+          ok = c.check(have == want && have.size() == PT.trg[d].size() && PT.n[d] == Index(have.size()), "part.deduct_from_top.dim" + vm::str(d),
+            [&]{ return "deduct_target_sets_from_top lists " + vm::str(PT.trg[d].size()) + " entities of dim " + vm::str(d) + ", the closure of the cells has " + vm::str(want.size()); }) && ok;
+        }
+      }
+      // ConformalMesh: clone(other) into an existing mesh, move assignment, trivial getters
+      {
+        const MeshType& m = *node.get_mesh();
+        Index ne[4] = {1, 1, 1, 1};
+        MeshType m2(ne);
+        m2.clone(m);
+        MeshType m3(ne);
+        m3 = std::move(m2);
+        vm::PMesh A; std::string err; vm::extract_mesh(A, m3, o.qbits + 3 * o.depth, &err);
+        std::string d = vm::diff_mesh(M, A);
+        ok = c.check(d.empty(), "mesh.clone-into+move-assign", [&]{ return "ConformalMesh::clone(other) followed by move assignment differs from the source: " + d; }) && ok;
+        ok = c.check(m3.get_num_vertices() == M.n[0] && m3.get_num_elements() == M.n[dim] && m3.is_permuted() == m.is_permuted(), "mesh.getters", "get_num_vertices/get_num_elements/is_permuted wrong on the moved clone") && ok;
+      }
+      c.count("part_api_checked");
+      return ok;
+    }
+
     /// composes a nested part with its parent part
     static vm::PPart compose(const vm::PPart& child, const vm::PPart& parent)
     {
@@ -205,6 +356,8 @@ namespace
         }
         out[nm] = std::move(p);
       }
+      for(const auto& h : node.get_halo_map()) if(h.second) { vm::PPart p; vm::extract_part(p, *h.second); out["halo:" + std::to_string(h.first)] = std::move(p); }
+      for(const auto& h : node.get_patch_map()) if(h.second) { vm::PPart p; vm::extract_part(p, *h.second); out["patch:" + std::to_string(h.first)] = std::move(p); }
     }
 
     static void check_attr(const vm::PMesh& F, const vm::PPart& P, int qtot, vm::Rep& r, const std::string& w)
@@ -263,18 +416,45 @@ namespace
       collect_parts(*node, PC);
       for(auto& p : PC) { r.ctx = "level 0 part " + p.first; vm::check_part_valid(C, p.second, r, "part[" + part_class(p.first) + "].input"); }
       if(!r.ok()) { flush(c, r, "harness."); return; }
+      if(o.part_variant >= 0 && !node_api_history(c, *node, PC, o.part_variant)) return;
+      if(o.part_variant >= 0 && lvl0_part_api(c, *node, C, o) == false) return;
 
       // optional mesh permutation: same geometric entities afterwards
       if(o.perm_strategy != 0)
       {
-        node->create_permutation(static_cast<PermutationStrategy>(o.perm_strategy));
+        if(o.perm_strategy == int(PermutationStrategy::other))
+        {
+          // custom permutation through MeshPermutation::create_other + create_inverse_permutations + set_permutation
+          MeshPermutation<Shape_> mp;
+          {
+            Index wrong[4] = {C.n[0] + 1, C.n[1], C.n[2], C.n[3]};
+            auto& pa = mp.create_other();
+            for(int d = 0; d <= dim; ++d)
+            {
+              if(o.custom_perm == 1 && d != dim) continue;
+              if(o.custom_perm == 2 && d != 0) continue;
+              std::vector<Index> pv(size_t(C.n[d]));
+              for(Index i = 0; i < C.n[d]; ++i) pv[size_t(i)] = (o.custom_perm == 1) ? (i + 1) % C.n[d] : C.n[d] - 1 - i;
+              pa.at(size_t(d)) = Adjacency::Permutation(C.n[d], Adjacency::Permutation::ConstrType::perm, pv.data());
+            }
+            mp.create_inverse_permutations();
+            c.check(mp.validate_sizes(C.n) == 0, "perm.validate_sizes", "validate_sizes rejects a permutation of the right sizes");
+            if(o.custom_perm != 1) c.check(mp.validate_sizes(wrong) == 1, "perm.validate_sizes", [&]{ return "validate_sizes = " + vm::str(mp.validate_sizes(wrong)) + " for a vertex permutation of the wrong size, expected 1"; });
+          }
+          node->set_permutation(std::move(mp));
+          c.count("custom_permutations");
+        }
+        else
+          node->create_permutation(static_cast<PermutationStrategy>(o.perm_strategy));
         vm::PMesh Cp;
         if(!vm::extract_mesh(Cp, *node->get_mesh(), qtot, &err)) { c.fail("perm.lattice", err); return; }
         std::map<std::string, vm::PPart> PP;
         collect_parts(*node, PP);
         r.ctx = "after create_permutation(" + vm::str(o.perm_strategy) + ")";
         check_same_geometry(C, Cp, PC, PP, r);
-        if(!r.ok()) { flush(c, r, "perm."); return; }
+        check_perm_definition(*node->get_mesh(), C, Cp, o, r);
+        c.count("permutations_checked");
+        if(!r.ok()) { for(auto& x : r.f) c.fail(x.first.compare(0, 15, "MeshPermutation") == 0 ? x.first : "perm." + x.first, x.second); r.f.clear(); return; }
         C = std::move(Cp); PC = std::move(PP);
       }
 
@@ -357,6 +537,38 @@ namespace
           PartType bp(bfac);
           vm::PPart B; vm::extract_part(B, bp);
           vm::check_boundary_part(F, ri.tf, B, r, "boundary");
+          // masked variants: some boundary and interior facets masked one by one, the refined "sub" part masked as a whole
+          const int fd = dim - 1;
+          std::vector<char> mask(size_t(F.n[fd]), 0);
+          MaskedBoundaryFactory<MeshType> mf(*fine->get_mesh());
+          GlobalMaskedBoundaryFactory<MeshType> gf(*fine->get_mesh());
+          for(Index f = 0; f < F.n[fd]; ++f) if(((f + Index(lvl) + Index(o.part_variant + 1)) % 3) == 0) { mf.add_mask_facet(f); gf.add_mask_facet(f); mask[size_t(f)] = 1; }
+          for(const char* nm : {"sub", "zz_sub"})
+          {
+            const PartType* sp = fine->find_mesh_part(nm);
+            if(sp == nullptr) continue;
+            mf.add_mask_meshpart(*sp); gf.add_mask_meshpart(*sp);
+            const auto& ts = sp->template get_target_set<dim - 1>();
+            for(Index i = 0; i < ts.get_num_entities(); ++i) mask[size_t(ts[i])] = 1;
+          }
+          mf.compile();
+          PartType mpart(mf);
+          vm::PPart MB; vm::extract_part(MB, mpart);
+          r.ctx = "level " + vm::str(lvl) + " MaskedBoundaryFactory";
+          vm::check_boundary_part(F, ri.tf, MB, r, "boundary.masked", &mask);
+          // re-invocation of compile() (checked on the first variant of every family only: a defect here hits every case)
+          if(o.part_variant == 0) mf.compile();
+          PartType mpart2(mf);
+          vm::PPart MB2; vm::extract_part(MB2, mpart2);
+          if(!vm::diff_part(MB, MB2).empty()) r.fail("MaskedBoundaryFactory::compile() called twice lists every boundary entity twice (face index vectors not cleared)",
+            "second compile() of the same factory: part has " + vm::str(MB2.trg[0].size()) + " vertices / " + vm::str(MB2.trg[dim - 1].size()) + " facets, after the first compile() " + vm::str(MB.trg[0].size()) + " / " + vm::str(MB.trg[dim - 1].size()));
+          Dist::Comm comm = Dist::Comm::world();
+          gf.compile(comm);
+          PartType gpart(gf);
+          vm::PPart GB; vm::extract_part(GB, gpart);
+          r.ctx = "level " + vm::str(lvl) + " GlobalMaskedBoundaryFactory (no halos)";
+          vm::check_boundary_part(F, ri.tf, GB, r, "boundary.globalmasked", &mask);
+          c.count("masked_boundaries_checked");
         }
         // neighbour information
         {
@@ -406,6 +618,19 @@ namespace
           r.ctx = "level 1 adapt";
           std::unique_ptr<NodeType> fa = node->refine_unique(AdaptMode::chart);
           check_adapt(*fine, *fa, r);
+          {
+            // adapt_by_name for every part in name order must reproduce adapt(): returns true exactly for chart-linked non-null parts
+            std::unique_ptr<NodeType> fb = node->refine_unique(AdaptMode::none);
+            for(const auto& nm : fb->get_mesh_part_names())
+            {
+              const bool want = (fb->find_mesh_part(nm) != nullptr) && (fb->find_mesh_part_chart(nm) != nullptr);
+              if(fb->adapt_by_name(nm, (nm.size() & 1) != 0) != want) r.fail("adapt_by_name.result", "adapt_by_name('" + nm + "') returned " + (want ? "false" : "true"));
+            }
+            if(fb->adapt_by_name("no such part")) r.fail("adapt_by_name.result", "adapt_by_name of a missing part returned true");
+            const auto& va = fa->get_mesh()->get_vertex_set(); const auto& vb = fb->get_mesh()->get_vertex_set();
+            for(Index i = 0; i < va.get_num_vertices(); ++i) for(int j = 0; j < MeshType::world_dim; ++j)
+              if(!(va[i][j] == vb[i][j])) { r.fail("adapt_by_name.coords", "vertex " + vm::str(i) + " differs between adapt() and the sequence of adapt_by_name() calls"); i = va.get_num_vertices() - 1; break; }
+          }
           c.count("adapt_checked");
           if(!r.ok()) { flush(c, r, ""); return; }
         }
@@ -418,7 +643,11 @@ namespace
 
     static std::string part_class(const std::string& name)
     {
-      if(name == "bnd" || name == "sub" || name == "raw" || name == "cells" || name == "topo" || name == "topocells" || name == "loop" || name == "bnd/nest") return name;
+      std::string n = name;
+      if(n.compare(0, 3, "zz_") == 0 || n.compare(0, 3, "aa_") == 0) n = n.substr(3);
+      if(n == "bnd" || n == "sub" || n == "raw" || n == "cells" || n == "topo" || n == "topocells" || n == "loop" || n == "bnd/nest") return n;
+      if(n.compare(0, 5, "halo:") == 0) return "halo";
+      if(n.compare(0, 6, "patch:") == 0) return "patch";
       return "file";
     }
 
@@ -468,6 +697,76 @@ namespace
           }
         }
         vm::check_part_valid(B, it->second, r, "part[" + part_class(p.first) + "]");
+      }
+    }
+
+    /// the stored permutation arrays, colouring and layering against their definitions
+    static void check_perm_definition(const MeshType& mesh, const vm::PMesh& A, const vm::PMesh& B, const Opts& o, vm::Rep& r)
+    {
+      const auto& mp = mesh.get_mesh_permutation();
+      if(!mesh.is_permuted() || mp.empty()) { r.fail("definition.flag", "mesh does not report a permutation"); return; }
+      if(int(mp.get_strategy()) != o.perm_strategy) r.fail("definition.strategy", "get_strategy() = " + vm::str(int(mp.get_strategy())) + ", requested " + vm::str(o.perm_strategy));
+      Index n[4] = {B.n[0], B.n[1], B.n[2], B.n[3]};
+      if(mp.validate_sizes(n) != 0) r.fail("definition.sizes", "validate_sizes reports " + vm::str(mp.validate_sizes(n)));
+      for(int d = 0; d <= dim; ++d)
+      {
+        const Adjacency::Permutation& p = mp.get_perm(d); const Adjacency::Permutation& q = mp.get_inv_perm(d);
+        if(p.empty() != q.empty()) { r.fail("definition.inverse.dim" + vm::str(d), "forward and inverse permutation are not both empty / both present"); continue; }
+        if(&p != &mp.get_perms().at(size_t(d)) || &q != &mp.get_inv_perms().at(size_t(d))) r.fail("definition.accessors", "get_perm(d) is not get_perms()[d]");
+        for(Index k = 0; k < B.n[d]; ++k)
+        {
+          const Index src = p.empty() ? k : p.map(k);
+          if(src >= A.n[d]) { r.fail("definition.range.dim" + vm::str(d), "permutation maps out of range"); break; }
+          if(!p.empty() && q.map(src) != k) { r.fail("definition.inverse.dim" + vm::str(d), "inverse permutation is not the inverse at position " + vm::str(k)); break; }
+          if(geo_key(B, d, k) != geo_key(A, d, src)) { r.fail("definition.x_new[k]=x_old[P[k]].dim" + vm::str(d), "entity " + vm::str(k) + " of dim " + vm::str(d) + " of the permuted mesh is not entity P[k]=" + vm::str(src) + " of the original mesh"); break; }
+        }
+      }
+      // cells sharing a vertex
+      std::vector<std::vector<Index>> cav(size_t(B.n[0]));
+      for(Index e = 0; e < B.n[dim]; ++e) for(int j = 0; j < B.cnt(dim, 0); ++j) cav[size_t(B.tup(dim, 0, e)[j])].push_back(e);
+      auto blocks_ok = [&](const std::vector<Index>& off, const std::string& what) {
+        if(what == "coloring" && off.front() == 0 && off.back() != B.n[dim])
+        { r.fail("MeshPermutation colored strategy: element colouring vector lacks its last offset (#cells)", "get_element_coloring() has " + vm::str(off.size()) + " entries, last = " + vm::str(off.back()) + ", mesh has " + vm::str(B.n[dim]) + " cells"); return false; }
+        if(off.front() != 0 || off.back() != B.n[dim]) { r.fail("definition." + what + ".offsets", what + " offsets do not span [0, #cells]"); return false; }
+        for(size_t i = 0; i + 1 < off.size(); ++i) if(off[i] > off[i + 1]) { r.fail("definition." + what + ".offsets", what + " offsets are not monotone"); return false; }
+        return true; };
+      const std::vector<Index>& col = mp.get_element_coloring();
+      if(o.perm_strategy == int(PermutationStrategy::colored) && col.empty()) r.fail("definition.coloring.missing", "colored strategy without element colouring");
+      if(!col.empty() && blocks_ok(col, "coloring"))
+      {
+        std::vector<size_t> colour(size_t(B.n[dim]));
+        for(size_t i = 0; i + 1 < col.size(); ++i) for(Index e = col[i]; e < col[i + 1]; ++e) colour[size_t(e)] = i;
+        for(auto& cl : cav) for(Index a : cl) for(Index b : cl) if(a != b && colour[size_t(a)] == colour[size_t(b)])
+        { r.fail("definition.coloring", "cells " + vm::str(a) + " and " + vm::str(b) + " share a vertex and have the same colour " + vm::str(colour[size_t(a)])); goto col_done; }
+        col_done:
+        if(!mesh.validate_element_coloring()) r.fail("definition.coloring.validate", "validate_element_coloring() rejects a valid colouring");
+      }
+      const std::vector<Index>& lay = mp.get_element_layering();
+      if((o.perm_strategy == int(PermutationStrategy::geometric_cuthill_mckee) || o.perm_strategy == int(PermutationStrategy::geometric_cuthill_mckee_reversed)) && lay.empty())
+        r.fail("definition.layering.missing", "geometric Cuthill-McKee strategy without element layering");
+      if(!lay.empty() && blocks_ok(lay, "layering"))
+      {
+        std::vector<long> layer(size_t(B.n[dim]));
+        for(size_t i = 0; i + 1 < lay.size(); ++i) for(Index e = lay[i]; e < lay[i + 1]; ++e) layer[size_t(e)] = long(i);
+        for(auto& cl : cav) for(Index a : cl) for(Index b : cl) if(std::labs(layer[size_t(a)] - layer[size_t(b)]) > 1)
+        { r.fail("definition.layering", "cells " + vm::str(a) + " and " + vm::str(b) + " share a vertex but lie in layers " + vm::str(layer[size_t(a)]) + " and " + vm::str(layer[size_t(b)])); goto lay_done; }
+        lay_done:
+        if(!mesh.validate_element_layering()) r.fail("definition.layering.validate", "validate_element_layering() rejects a valid layering");
+      }
+      if(o.perm_strategy == int(PermutationStrategy::lexicographic))
+      {
+        for(int d = 0; d <= dim; ++d)
+        {
+          std::array<vm::i64, 3> prev = {0, 0, 0};
+          for(Index e = 0; e < B.n[d]; ++e)
+          {
+            std::array<vm::i64, 3> s = {0, 0, 0}; // (z,y,x) sums
+            const int nv = (d == 0) ? 1 : B.cnt(d, 0);
+            for(int j = 0; j < nv; ++j) { const auto& p = B.vtx[size_t(d == 0 ? e : B.tup(d, 0, e)[j])]; s[0] += p[2]; s[1] += p[1]; s[2] += p[0]; }
+            if(e > 0 && s < prev) { r.fail("definition.lexicographic.dim" + vm::str(d), "entities " + vm::str(e - 1) + " and " + vm::str(e) + " of dim " + vm::str(d) + " are not in Z-Y-X order of their barycentres"); break; }
+            prev = s;
+          }
+        }
       }
     }
 
@@ -626,6 +925,54 @@ namespace
     Opts o; o.shape = shape; o.coverage = true;
     o.depth = c.thorough ? 3 : 2;
 
+    // 0: definitions and failure paths (3D only)
+    if constexpr(dim == 3)
+    {
+      // FaceIndexMapping<Shape,2,1>: the k-th edge of local face j of a cell, as local edge number of the cell
+      if(c.want())
+      {
+        c.desc([&]{ return shape + ": FaceIndexMapping<Shape,2,1> against the vertex sets of FaceIndexMapping<Shape,1,0> / <Shape,2,0> / <Face,1,0>"; });
+        typedef typename Shape::FaceTraits<Shape_, 2>::ShapeType FaceShape;
+        const vm::RefCell& rc = vm::refcell(sx, 3); const vm::RefCell& rf = vm::refcell(sx, 2);
+        for(size_t j = 0; j < rc.faces[2].size(); ++j) for(size_t k = 0; k < rf.faces[1].size(); ++k)
+        {
+          const int le = Geometry::Intern::FaceIndexMapping<Shape_, 2, 1>::map(int(j), int(k));
+          std::set<int> want, have;
+          for(int q = 0; q < 2; ++q) want.insert(rc.faces[2][j][size_t(rf.faces[1][k][size_t(q)])]);
+          bool in_range = (le >= 0 && le < int(rc.faces[1].size()));
+          if(in_range) for(int q = 0; q < 2; ++q) have.insert(rc.faces[1][size_t(le)][size_t(q)]);
+          c.check(in_range && want == have, "FaceIndexMapping<" + shape + ",2,1> face " + std::to_string(j) + " edge " + std::to_string(k),
+            [&]{ return "maps to cell edge " + std::to_string(le) + " which does not join the vertices of that face edge"; });
+          // the FEAT tables must agree with the harness' reference cell as well
+          for(int q = 0; q < int(rf.nv); ++q) c.check(Geometry::Intern::FaceIndexMapping<Shape_, 2, 0>::map(int(j), q) == rc.faces[2][j][size_t(q)], "FaceIndexMapping<" + shape + ",2,0>", "differs from the harness reference cell");
+          for(int q = 0; q < 2; ++q) c.check(Geometry::Intern::FaceIndexMapping<FaceShape, 1, 0>::map(int(k), q) == rf.faces[1][k][size_t(q)], "FaceIndexMapping<face of " + shape + ",1,0>", "differs from the harness reference cell");
+        }
+        for(size_t e = 0; e < rc.faces[1].size(); ++e) for(int q = 0; q < 2; ++q)
+          c.check(Geometry::Intern::FaceIndexMapping<Shape_, 1, 0>::map(int(e), q) == rc.faces[1][e][size_t(q)], "FaceIndexMapping<" + shape + ",1,0>", "differs from the harness reference cell");
+        c.nontrivial(verif::Hash().str(shape).str("fim").get());
+      }
+      // a 3D mesh part with own topology that contains cells is documented as not implemented: refining it must abort,
+      // not return a part with unrefined / garbage cell targets
+      if(c.want())
+      {
+        c.desc([&]{ return shape + ": refinement of a 3D mesh part with topology containing a cell must abort (XASSERT 'not implemented')"; });
+        vm::MeshSpec ms = vm::gen_pair(sx, 3);
+        typedef Runner<Shape_> R;
+        const int rc = c.run_forked([&]{
+          auto mesh = vm::build_mesh<typename R::MeshType>(ms, true);
+          vm::PMesh M; vm::extract_mesh(M, *mesh, 0);
+          vm::Rep r; vm::TopoInfo ti; vm::check_topology(M, r, "m", &ti);
+          auto node = R::NodeType::make_unique(std::move(mesh));
+          vm::PartSpec ps = vm::topo_part(M, ti, {0}, 3, 1, "topocells3d");
+          node->add_mesh_part("topocells3d", vm::build_part<typename R::MeshType>(ps, M, 0));
+          auto fine = node->refine_unique(AdaptMode::none);
+          (void)fine;
+        });
+        c.check(rc == SIGABRT, "3D topology part with cells: refinement does not abort", [&]{ return "run_forked code " + std::to_string(rc) + ", expected SIGABRT (" + std::to_string(SIGABRT) + ")"; });
+        c.nontrivial(verif::Hash().str(shape).str("abort3d").get());
+        c.count("expected_aborts_checked");
+      }
+    }
     // A: single cell, every symmetry, deduced + every explicit orientation variant
     for(size_t g = 0; g < G.size(); ++g) for(int var = -1; var < nvar; ++var)
     {
@@ -698,7 +1045,6 @@ namespace
       else { blocks.push_back(vm::gen_simplex_block(dim, 2, 2, 1)); blocks.push_back(vm::gen_simplex_block(dim, 1, 1, 1)); }
       for(size_t b = 0; b < blocks.size(); ++b) for(int rn = 0; rn < 3; ++rn) for(int strat = 0; strat <= int(PermutationStrategy::geometric_cuthill_mckee_reversed); ++strat) for(int ex = 0; ex < 2; ++ex)
       {
-        if(strat == int(PermutationStrategy::other)) continue;
         if(!c.want()) continue;
         vm::MeshSpec ms = blocks[b];
         renumber_vertices(ms, rn);
@@ -708,6 +1054,7 @@ namespace
         if(ex) vm::make_explicit(ms, rn + strat);
         o.part_variant = rn * 11 + strat + ex;
         o.perm_strategy = strat;
+        o.custom_perm = (rn + ex + int(b)) % 3;
         o.depth = (dim == 3) ? (c.thorough ? 2 : 1) : (c.thorough ? 3 : 2);
         do_case<Shape_>(c, ms, o);
       }
